@@ -301,15 +301,30 @@ func seqPush(res *worker.Result, k *kase, tr truth, rng *rand.Rand) {
 	}
 
 	// an unrelated blob first, so that "unchanged" is about a used store
+	var preDesc *ocispec.Descriptor
+	var preBytes []byte
+	var preBuf *bytes.Buffer
 	if rng.IntN(2) == 0 {
 		pre := append([]byte("verif-c05-pre:"), randBytes(rng, 16)...)
 		pd := ocispec.Descriptor{MediaType: "application/octet-stream", Digest: digest.Digest(dg("sha256", pre)), Size: int64(len(pre))}
 		if t.name != nil && k.Store == "file-named" {
 			pd.Annotations = map[string]string{ocispec.AnnotationTitle: t.name()}
 		}
-		if err := t.st.Push(ctx, pd, bytes.NewReader(pre)); err != nil && !errors.Is(err, errdef.ErrSizeExceedsLimit) {
+		pbuf := bytes.NewBuffer(append([]byte{}, pre...))
+		if err := t.st.Push(ctx, pd, pbuf); err != nil && !errors.Is(err, errdef.ErrSizeExceedsLimit) {
 			res.Violate("exact-push-refused:"+k.Store+":pre", "push of a small well-formed blob failed: "+err.Error(), nil)
 			return
+		} else if err == nil {
+			preDesc, preBytes, preBuf = &pd, pre, pbuf
+		}
+	}
+	preReuse := func() {
+		if preBuf != nil {
+			n := len(preBytes)
+			preBuf.Reset()
+			for i := 0; i < n; i++ {
+				preBuf.WriteByte('#')
+			}
 		}
 	}
 
@@ -318,11 +333,10 @@ func seqPush(res *worker.Result, k *kase, tr truth, rng *rand.Rand) {
 		d.Annotations = map[string]string{ocispec.AnnotationTitle: name}
 	}
 	before := listing(t.blobsDir)
-	var rd io.Reader = k.reader(rng)
-	if k.Rho.Chunk == "bytes.Reader" {
-		rd = bytes.NewReader(k.Stream)
-	}
+	rd, reuse := k.source(rng)
 	pushErr := t.st.Push(ctx, d, rd)
+	reuse() // the caller reuses its buffers; everything below is observed afterwards
+	preReuse()
 	after := listing(t.blobsDir)
 	if n := len(listing(t.ingest)); n > 0 {
 		res.Count("ingest_leftovers_recorded", int64(n))
@@ -438,9 +452,36 @@ func seqPush(res *worker.Result, k *kase, tr truth, rng *rand.Rand) {
 		}
 	}
 
+	// the blob stored earlier from a buffer that has since been reused must still be itself
+	if preDesc != nil {
+		pv := look(t.st, *preDesc)
+		got, err := content.FetchAll(ctx, t.st, *preDesc)
+		if !pv.Exists || !pv.Fetched || !bytes.Equal(pv.Data, preBytes) || err != nil || !bytes.Equal(got, preBytes) {
+			m := w()
+			m["earlier_blob"] = short(preBytes)
+			m["earlier_view"] = pv
+			m["earlier_fetchall_err"] = errStr(err)
+			res.Violate("stored-content-changed-after-caller-reused-buffer:"+k.Store+":earlier-blob", "a blob pushed earlier from a bytes.Buffer no longer matches its descriptor after the caller reused the buffer", m)
+			return
+		}
+		res.Count("earlier_blob_rechecked", 1)
+	}
+
+	views, viewsDone := fetchViews(res, k, t, rng)
+	defer viewsDone()
 	// what is visible now must not be handed back by FetchAll under a descriptor of another length
 	if pushErr == nil && tr.PrefixOK {
-		if !wrongSizeProbes(res, k, t, d, k.Stream[:k.Size], rng, w) {
+		if !wrongSizeProbes(res, k, views, d, k.Stream[:k.Size], rng, w) {
+			return
+		}
+	}
+	// descriptors that embed content (Data): whatever FetchAll hands back must have the descriptor's digest and size
+	{
+		var visible []byte
+		if pushErr == nil && tr.PrefixOK {
+			visible = k.Stream[:k.Size]
+		}
+		if !dataProbes(res, k, views, d, visible, rng, w) {
 			return
 		}
 	}
@@ -457,7 +498,15 @@ func seqPush(res *worker.Result, k *kase, tr truth, rng *rand.Rand) {
 		if pv := look(t.st, gd); pv.visible() {
 			return // cannot happen after the checks above unless descriptors coincide
 		}
-		err := t.st.Push(ctx, gd, bytes.NewReader(k.Base))
+		gsrc := append([]byte{}, k.Base...)
+		var grd io.Reader = bytes.NewBuffer(gsrc)
+		if rng.IntN(2) == 0 {
+			grd = bytes.NewReader(gsrc)
+		}
+		err := t.st.Push(ctx, gd, grd)
+		for i := range gsrc {
+			gsrc[i] = ^gsrc[i]
+		}
 		v2 := look(t.st, gd)
 		if err != nil || !v2.Exists || !v2.Fetched || !bytes.Equal(v2.Data, k.Base) {
 			res.Violate("exact-push-refused:"+k.Store+":after-refused-push", fmt.Sprintf("after the refused push, pushing the base content under its true descriptor: err=%s Exists=%v Fetch ok=%v equal=%v", errStr(err), v2.Exists, v2.Fetched, bytes.Equal(v2.Data, k.Base)), w())
@@ -505,44 +554,132 @@ func seqPush(res *worker.Result, k *kase, tr truth, rng *rand.Rand) {
 	}
 }
 
+type fetchView struct {
+	name string
+	f    content.Fetcher
+}
+
+// fetchViews: the store itself and, for OCI layouts, read-only views of the directory
+// (fs.FS, tar) whose readers are files.
+func fetchViews(res *worker.Result, k *kase, t *target, rng *rand.Rand) ([]fetchView, func()) {
+	views := []fetchView{{"store", t.st}}
+	done := func() {}
+	if t.blobsDir != "" {
+		root := filepath.Dir(t.blobsDir)
+		views = append(views, fetchView{"oci.NewStorageFromFS", oci.NewStorageFromFS(os.DirFS(root))})
+		if k.Store == "oci-store" {
+			if ro, err := oci.NewFromFS(ctx, os.DirFS(root)); err == nil {
+				views = append(views, fetchView{"oci.NewFromFS", ro})
+			} else {
+				res.Count("readonly_view_open_failed", 1)
+			}
+		}
+		if rng.IntN(3) == 0 && len(k.Stream) < 200000 {
+			tarPath := root + ".tar"
+			done = func() { os.Remove(tarPath) }
+			if err := writeTar(root, tarPath); err != nil {
+				res.Count("readonly_view_open_failed", 1)
+			} else if ro, err := oci.NewStorageFromTar(tarPath); err == nil {
+				views = append(views, fetchView{"oci.NewStorageFromTar", ro})
+			} else {
+				res.Count("readonly_view_open_failed", 1)
+			}
+		}
+	}
+	return views, done
+}
+
+// matches reports whether data has the descriptor's size and (supported) digest.
+func matches(pd ocispec.Descriptor, data []byte) bool {
+	if int64(len(data)) != pd.Size {
+		return false
+	}
+	s := string(pd.Digest)
+	i := strings.Index(s, ":")
+	if i < 0 {
+		return false
+	}
+	switch algo := s[:i]; algo {
+	case "sha256", "sha384", "sha512":
+		return dg(algo, data) == s
+	}
+	return false
+}
+
+// dataProbes: FetchAll with descriptors that embed content in their Data field. The
+// statement's rule is applied as is: data handed back without error must have the
+// descriptor's length and digest, whatever Data says and whatever the store holds.
+func dataProbes(res *worker.Result, k *kase, views []fetchView, d ocispec.Descriptor, visible []byte, rng *rand.Rand, w func() map[string]any) bool {
+	type variant struct {
+		name string
+		data []byte
+	}
+	var vs []variant
+	if d.Size >= 0 && d.Size <= 2<<20 {
+		n := int(d.Size)
+		same := make([]byte, n)
+		copy(same, k.Stream)
+		if len(k.Stream) < n {
+			copy(same[len(k.Stream):], randBytes(rng, n-len(k.Stream)))
+		}
+		vs = append(vs, variant{"stream-bytes-of-descriptor-length", same})
+		if n > 0 {
+			vs = append(vs, variant{"one-bit-flipped-same-length", flip(rng, same)})
+			vs = append(vs, variant{"one-byte-short", same[:n-1]})
+		}
+		vs = append(vs, variant{"one-byte-long", append(append([]byte{}, same...), byte(rng.Uint32()))})
+	} else {
+		vs = append(vs, variant{"stream", append([]byte{}, k.Stream...)})
+	}
+	if visible != nil && len(visible) > 0 {
+		vs = append(vs, variant{"stored-content-one-bit-flipped", flip(rng, visible)})
+	}
+	// two variants per case keep the cost flat
+	rng.Shuffle(len(vs), func(a, b int) { vs[a], vs[b] = vs[b], vs[a] })
+	if len(vs) > 2 {
+		vs = vs[:2]
+	}
+	for _, view := range views {
+		for _, v := range vs {
+			pd := d
+			pd.Data = append([]byte{}, v.data...)
+			got, err := content.FetchAll(ctx, view.f, pd)
+			res.Count("fetchall_embedded_data_probes", 1)
+			if err != nil {
+				res.Count("fetchall_embedded_data_refused", 1)
+				continue
+			}
+			if !matches(pd, got) {
+				m := w()
+				m["fetchall_view"] = view.name
+				m["embedded_data"] = v.name
+				m["embedded_len"] = len(v.data)
+				m["returned"] = short(got)
+				m["returned_len"] = len(got)
+				res.Violate("bad-read-accepted:"+k.Store+":FetchAll@"+view.name+":embedded-data:"+k.DClass, fmt.Sprintf("FetchAll returned %d bytes without error that do not have the descriptor's digest and size (descriptor Data = %s)", len(got), v.name), m)
+				return false
+			}
+			if visible != nil && !bytes.Equal(got, visible) {
+				m := w()
+				m["fetchall_view"] = view.name
+				m["embedded_data"] = v.name
+				res.Violate("wrong-data-handed-back:"+k.Store+":FetchAll@"+view.name+":embedded-data", "FetchAll returned matching bytes that are not the stored ones", m)
+				return false
+			}
+			res.Count("fetchall_embedded_data_ok", 1)
+		}
+	}
+	return true
+}
+
 // wrongSizeProbes: with content `want` visible under d, FetchAll with the same digest but a
 // larger / smaller / zero size must not hand back data without error ("only when both length
-// and digest match"), on the store itself and on read-only views of an OCI layout (fs.FS, tar),
-// whose readers are files.
-func wrongSizeProbes(res *worker.Result, k *kase, t *target, d ocispec.Descriptor, want []byte, rng *rand.Rand, w func() map[string]any) bool {
+// and digest match"), on every view.
+func wrongSizeProbes(res *worker.Result, k *kase, views []fetchView, d ocispec.Descriptor, want []byte, rng *rand.Rand, w func() map[string]any) bool {
 	n := int64(len(want))
 	sizes := []int64{n + 1, n + 1 + rng.Int64N(5000)}
 	if n > 0 {
 		sizes = append(sizes, n-1, 0)
-	}
-	type fv struct {
-		name string
-		f    content.Fetcher
-	}
-	views := []fv{{"store", t.st}}
-	if t.blobsDir != "" {
-		root := filepath.Dir(t.blobsDir)
-		views = append(views, fv{"oci.NewStorageFromFS", oci.NewStorageFromFS(os.DirFS(root))})
-		if k.Store == "oci-store" {
-			if ro, err := oci.NewFromFS(ctx, os.DirFS(root)); err == nil {
-				views = append(views, fv{"oci.NewFromFS", ro})
-			} else {
-				res.Count("readonly_view_open_failed", 1)
-			}
-		}
-		if rng.IntN(3) == 0 && n < 200000 {
-			tarPath := root + ".tar"
-			defer os.Remove(tarPath)
-			if err := writeTar(root, tarPath); err != nil {
-				res.Violate("harness:tar", err.Error(), nil)
-				return false
-			}
-			if ro, err := oci.NewStorageFromTar(tarPath); err == nil {
-				views = append(views, fv{"oci.NewStorageFromTar", ro})
-			} else {
-				res.Count("readonly_view_open_failed", 1)
-			}
-		}
 	}
 	for _, view := range views {
 		// sanity of the view: the right descriptor is handed back (only counted; a read-only
@@ -657,11 +794,11 @@ func seqProxy(res *worker.Result, k *kase, tr truth, rng *rand.Rand) {
 	default:
 		cache = cas.NewMemory()
 	}
+	reuse := func() {}
 	base := &hostileBase{rd: func() io.Reader {
-		if k.Rho.Chunk == "bytes.Reader" {
-			return bytes.NewReader(k.Stream)
-		}
-		return k.reader(rng)
+		rd, ru := k.source(rng)
+		reuse = ru
+		return rd
 	}}
 	var p *cas.Proxy
 	if k.Store == "proxy-limit" {
@@ -732,6 +869,9 @@ func seqProxy(res *worker.Result, k *kase, tr truth, rng *rand.Rand) {
 		c.readErr = errors.New("consumer blocked in the proxy's pipe")
 	}
 	got, readErr, closeErr, harnessErr := c.got, c.readErr, c.closeErr, c.harnessErr
+	if !blocked {
+		reuse() // the source's buffers are reused once the fetch is over
+	}
 	if harnessErr != "" {
 		res.Violate("harness:proxy-read-loop", harnessErr, k.witness(nil))
 		return
@@ -789,10 +929,7 @@ func seqProxy(res *worker.Result, k *kase, tr truth, rng *rand.Rand) {
 
 func seqReadAll(res *worker.Result, k *kase, tr truth, rng *rand.Rand) {
 	d := k.desc()
-	var rd io.Reader = k.reader(rng)
-	if k.Rho.Chunk == "bytes.Reader" {
-		rd = bytes.NewReader(k.Stream)
-	}
+	rd, reuse := k.source(rng)
 	var data []byte
 	var err error
 	closed := 0
@@ -808,7 +945,34 @@ func seqReadAll(res *worker.Result, k *kase, tr truth, rng *rand.Rand) {
 	w := func() map[string]any {
 		return k.witness(map[string]any{"returned_err": errStr(err), "returned_data": short(data), "returned_len": len(data)})
 	}
+	// the caller reuses its source buffers: what was handed back must stay what it was
+	snapshot := append([]byte{}, data...)
+	reuse()
+	if err == nil && !bytes.Equal(data, snapshot) {
+		m := w()
+		m["returned_at_return"] = short(snapshot)
+		res.Violate("handed-back-data-aliases-source:"+sfx(k), k.Store+" handed back verified data that changed when the caller reused its source buffer", m)
+		return
+	}
 	judgeHandBack(res, k, tr, err == nil, data, w, "returned data without error")
+
+	// descriptors that embed content (Data): whatever FetchAll hands back must match digest and size
+	if k.Store == "FetchAll" {
+		ws := func() map[string]any { return k.witness(nil) }
+		var rus []func()
+		view := fetchView{"FetcherFunc", content.FetcherFunc(func(context.Context, ocispec.Descriptor) (io.ReadCloser, error) {
+			r2, ru := k.source(rng)
+			rus = append(rus, ru)
+			return hreadCloser{Reader: r2, closed: &closed}, nil
+		})}
+		ok := dataProbes(res, k, []fetchView{view}, d, nil, rng, ws)
+		for _, ru := range rus {
+			ru()
+		}
+		if !ok {
+			return
+		}
+	}
 
 	// FetchAll over a fetcher whose reader is an *os.File (exposes Stat, ReadFrom, ...)
 	if k.Store == "FetchAll" && rng.IntN(2) == 0 {
@@ -883,10 +1047,8 @@ func judgeHandBack(res *worker.Result, k *kase, tr truth, ok bool, data []byte, 
 
 func seqVerifyReader(res *worker.Result, k *kase, tr truth, rng *rand.Rand) {
 	d := k.desc()
-	var rd io.Reader = k.reader(rng)
-	if k.Rho.Chunk == "bytes.Reader" {
-		rd = bytes.NewReader(k.Stream)
-	}
+	rd, reuse := k.source(rng)
+	defer reuse()
 	vr := content.NewVerifyReader(rd, d)
 	var got []byte
 	var trace []string
@@ -1031,10 +1193,8 @@ func seqVerifyReader(res *worker.Result, k *kase, tr truth, rng *rand.Rand) {
 
 func seqCopyBuffer(res *worker.Result, k *kase, tr truth, rng *rand.Rand) {
 	d := k.desc()
-	var rd io.Reader = k.reader(rng)
-	if k.Rho.Chunk == "bytes.Reader" {
-		rd = bytes.NewReader(k.Stream)
-	}
+	rd, reuse := k.source(rng)
+	defer reuse()
 	sizes := []int{1, 7, 512, 32 << 10, 1 << 20}
 	buf := make([]byte, sizes[rng.IntN(len(sizes))])
 	if len(k.Stream) > 50000 && len(buf) < 512 {
